@@ -9,11 +9,18 @@ from __future__ import annotations
 
 ID = "C14"
 LEVEL = "exploration"
-RULE = ("seeded random histories (length <= 25) over {construct from molecule / list of molecules / ensemble / atoms+n_conformers, "
-        "append (Molecule, Structure, CartesianGeometry, Conformer), extend (list, ensemble), scale, invert, translate (1-D, "
-        "per-conformer 2-D), rotate, center_at_atom, center_at_core, write through a conformer (coords[j]=v, coords=M, "
-        "atomic_charges[j]=q), iterate (list, nested, zip, abandoned+fresh, three levels, while growing), slice, negative "
-        "index, dump every conformer (mol2, xyz), store conformers in a MoleculeLibrary and the ensemble in a ConformerLibrary}. "
+RULE = ("seeded random histories (length <= 25) over {construct from molecule (n_conformers + setters / n_conformers + keywords / "
+        "no n_conformers) / list of molecules / ensemble / atoms+n_conformers, with full-shape or broadcastable (one geometry, one "
+        "charge vector, one weight) values, preceded now and then by a construction with a wrong-length keyword; "
+        "append (Molecule, Structure, CartesianGeometry, Conformer), extend (list, ensemble; also into an ensemble without "
+        "conformers), ensemble-level assignment of coords / atomic_charges / weights (full, broadcastable, wrong length), scale, "
+        "invert, translate (1-D, per-conformer 2-D), rotate (one matrix, one matrix per conformer), translate / rotate with a "
+        "number of vectors / matrices that does not fit, center_at_atom, center_at_core, write through a conformer (coords[j]=v, "
+        "coords=M, coords+=v, translate, scale, atomic_charges[j]=q, attrib[k]=v), in-place edits of what the ensemble was "
+        "constructed from / grown with, iterate (list, nested, zip, abandoned+fresh, three levels, while growing), slice, negative "
+        "index, dump every conformer and the whole ensemble (mol2, xyz; string and stream forms), store conformers in a "
+        "MoleculeLibrary and the ensemble in a ConformerLibrary, pickle / deepcopy conformers and the ensemble, continue the "
+        "history on the stored-and-read / unpickled / deep-copied / copy-constructed ensemble}. "
         "non-trivial = the history grows the ensemble and afterwards reads, dumps, serialises or iterates; distinct by "
         "operation-kind string")
 ASSUMPTIONS = [
@@ -21,11 +28,34 @@ ASSUMPTIONS = [
     "appended geometries must have the ensemble's atom count; a geometry without partial charges contributes zeros, a new "
     "conformer gets weight 1.0 (the constructor's default)",
     "arithmetic operations are compared with the same numpy operation at 1e-12 relative; data-moving ones bit-exactly",
+    "a constructor keyword / ensemble-level assignment with fewer dimensions than the block (one geometry, one charge vector, one "
+    "weight) either is refused or applies to every conformer (numpy broadcasting, the fill semantics of the setters); a refused "
+    "one changes nothing; only accepted ones count towards REQUIRED",
+    "a value / transformation argument whose conformer or atom count cannot fit (k != 1, k != n) may be refused or accepted, but "
+    "the three arrays must keep describing the same conformers and atoms; a refused one changes nothing",
+    "ConformerEnsemble(molecule) without n_conformers has one conformer; its initial values are not fixed by the property "
+    "(unset or the molecule's own are both accepted) and are assigned right away",
+    "while a loop is running and the ensemble grows, the loop must visit conformers 0..k-1 in order, once each, with k between "
+    "the number of conformers at the start and at the end (both a list-like and a snapshot iteration satisfy the statement)",
+    "a ConformerLibrary round trip may round to float32 (1.2e-7 relative); when the history continues on the read-back ensemble "
+    "the model adopts the stored values",
 ]
 REQUIRED = {"op.append": 200, "op.extend": 100, "op.iterate.nested": 100, "op.iterate.zip": 50, "op.iterate.abandoned": 50,
             "op.write-through": 200, "op.dump": 100, "op.serialise": 50, "inspect": 3000, "view.checked": 3000,
             "op.slice": 50, "view.held-checked": 300, "op.grow-refused": 30, "source.checked": 300, "op.write-through.held": 30, "construct.list": 20, "construct.molecule": 20, "construct.ensemble": 20, "construct.atoms": 20,
-            "bystander.checked": 300, "op.grow-from-itself": 30, "op.edit-constructor-source": 30}
+            "bystander.checked": 300, "op.grow-from-itself": 30, "op.edit-constructor-source": 30,
+            # gap review (second round)
+            "construct.molecule-default": 20, "construct.molecule-kw": 20, "construct.broadcast": 30,
+            "construct.wrong-length-attempt": 30, "raw.checked": 3000, "op.assign.full": 30, "op.assign.broadcast": 50,
+            "op.assign.wrong-length": 30, "op.transform-refused": 50, "op.transform-refused.single-conformer": 10,
+            "op.rotate.stack": 30, "op.edit-growth-source": 100, "op.extend.ensemble-into-empty": 5, "source.ensemble-checked": 500,
+            "op.iterate.growing": 50, "dump.ensemble-xyz": 100, "dump.ensemble-mol2-charges": 100,
+            "op.serialise.conformer-pickled": 100, "op.serialise.ensemble-pickled": 50, "op.continue-on-copy": 50,
+            "op.continue-on-copy.library": 10, "op.continue-on-copy.pickle": 10, "op.continue-on-copy.deepcopy": 10,
+            "op.continue-on-copy.constructor": 10, "op.write-through.attrib": 30, "op.write-through.mutator": 50,
+            "view.attrib-checked": 3000}
+# violation keys that the UNCHANGED tree produces (genuine defects written up in tools/findings/C14-ext.json); none at present
+KNOWN_ON_UNCHANGED_TREE = set()
 CHUNK_TIMEOUT = 900
 TECHNIQUE = "runtime monitoring: rectangular-array reference model stepped beside the real ensemble + iteration-pattern oracle"
 LEVEL_TEXT = ("Held on the operation histories produced: after every operation the ensemble's three arrays, every conformer view "
@@ -46,6 +76,7 @@ class Model:
         self.coords = np.array(coords, dtype=float)
         self.charges = np.array(charges, dtype=float)
         self.weights = np.array(weights, dtype=float)
+        self.attrib = {}
 
     @property
     def nc(self):
@@ -68,23 +99,130 @@ def base_molecule(rng):
     return m
 
 
-def construct(rng, ctx):
-    """-> (ensemble, model, base molecule)"""
+def rectangular(e):
+    """(shapes of the three arrays, True when they describe the same number of conformers and atoms)"""
+    import numpy as np
+
+    sh = (np.shape(e.coords), np.shape(e.atomic_charges), np.shape(e.weights))
+    ok = len(sh[0]) == 3 and sh[0][2] == 3 and sh[1] == sh[0][:2] and sh[2] == sh[0][:1] and e.n_conformers == sh[0][0] and e.n_atoms == sh[0][1]
+    return sh, ok
+
+
+def construct(rng, ctx, case=None):
+    """-> (ensemble, model, base molecule, route, bystander objects, raw arrays handed over)"""
     import numpy as np
     import molli as ml
 
     base = base_molecule(rng)
     na = base.n_atoms
     by = []     # objects the ensemble was constructed from: (object, coords, charges, weights) that must stay what they are
-    route = rng.choice(["molecule", "list", "ensemble", "atoms"])
+    raw = []    # (array handed to a constructor / setter, copy of it): stays the caller's
+    route = rng.choice(["molecule", "molecule-default", "molecule-kw", "list", "ensemble", "atoms"])
     ctx.count(f"construct.{route}")
     nc = rng.choice([1, 2, 3, 5])
     cs = np.array([[[rng.uniform(-6, 6) for _ in range(3)] for _ in range(na)] for _ in range(nc)])
     qs = np.array([[rng.uniform(-1, 1) for _ in range(na)] for _ in range(nc)])
     ws = np.array([rng.choice([1.0, 0.5, 0.25]) for _ in range(nc)])
-    if route == "molecule":
-        e = ml.ConformerEnsemble(base, n_conformers=nc)
-        e.coords, e.atomic_charges, e.weights = cs, qs, ws
+    base_keep = (base, np.array(base.coords), np.array(base.atomic_charges), None)
+
+    # values as they are handed over: full blocks, or (now and then) ONE geometry / charge vector / weight for all conformers
+    gc, gq, gw = cs, qs, ws
+    if route in ("molecule", "molecule-kw", "atoms") and rng.random() < 0.45:
+        which = [k for k in ("coords", "atomic_charges", "weights") if rng.random() < 0.6] or ["weights"]
+        if "coords" in which:
+            gc = np.array(cs[0])
+        if "atomic_charges" in which:
+            gq = rng.choice([np.array(qs[0]), float(qs[0][0])])
+        if "weights" in which:
+            gw = rng.choice([float(ws[0]), [float(ws[0])]])
+        broadcast = True
+    else:
+        broadcast = False
+
+    def handed(*arrs):
+        for a in arrs:
+            if isinstance(a, np.ndarray):
+                raw.append((a, np.array(a)))
+
+    if route in ("molecule-kw", "atoms") and rng.random() < 0.35:
+        # a keyword that describes another number of conformers / atoms: refused, or at least a rectangular result
+        which = rng.choice(["coords", "coords-atoms", "atomic_charges", "atomic_charges-atoms", "weights", "weights-more"])
+        kw = {"coords": cs, "atomic_charges": qs, "weights": ws}
+        kw[which.split("-")[0]] = {"coords": np.zeros((nc + 1, na, 3)), "coords-atoms": np.zeros((nc, na + 1, 3)),
+                                   "atomic_charges": np.zeros((nc + 1, na)), "atomic_charges-atoms": np.zeros((nc, na + 1)),
+                                   "weights": np.ones(nc + 1), "weights-more": np.ones(nc + 3)}[which]
+        ctx.count("construct.wrong-length-attempt")
+        try:
+            if route == "atoms":
+                x = ml.ConformerEnsemble(base.atoms, n_conformers=nc, name=base.name, copy_atoms=True, **kw)
+            else:
+                x = ml.ConformerEnsemble(base, n_conformers=nc, **kw)
+        except Exception:  # noqa
+            ctx.count("construct.wrong-length-refused")
+        else:
+            sh, ok = rectangular(x)
+            if not ok or x.n_atoms != na:
+                ctx.violation(f"construct:{route}:wrong-length-{which.split('-')[0]}-keyword-accepted-and-arrays-not-rectangular", case=case,
+                              got=[list(t) for t in sh], n_conformers=nc, n_atoms=na, keyword=which)
+
+    def build(gc, gq, gw):
+        if route == "molecule":
+            e = ml.ConformerEnsemble(base, n_conformers=nc)
+            e.coords, e.atomic_charges, e.weights = gc, gq, gw
+        elif route == "molecule-kw":
+            e = ml.ConformerEnsemble(base, n_conformers=nc, coords=gc, atomic_charges=gq, weights=gw)
+        else:
+            e = ml.ConformerEnsemble(base.atoms, n_conformers=nc, name=base.name, copy_atoms=True,
+                                     coords=gc if nc else None, atomic_charges=gq if nc else None, weights=gw if nc else None)
+            for b in base.bonds:
+                e.connect(base.atoms.index(b.a1), base.atoms.index(b.a2), btype=b.btype)
+        return e
+
+    if route in ("molecule", "molecule-kw", "atoms"):
+        if route == "atoms" and rng.random() < 0.3:
+            nc = 0
+            cs, qs, ws = cs[:0], qs[:0], ws[:0]
+            gc, gq, gw = cs, qs, ws
+            broadcast = False
+        try:
+            e = build(gc, gq, gw)
+        except Exception:  # noqa
+            if not broadcast:
+                raise
+            # broadcastable values are refused by this library version: legitimate, fall back to full blocks
+            ctx.count("construct.broadcast-refused")
+            broadcast = False
+            gc, gq, gw = cs, qs, ws
+            e = build(gc, gq, gw)
+        if nc:
+            handed(gc, gq, gw)
+        if route != "atoms":
+            by = [base_keep]
+    elif route == "molecule-default":
+        # the plainest form: a molecule becomes an ensemble with ONE conformer
+        e = ml.ConformerEnsemble(base)
+        nc = 1
+        cs, qs, ws = cs[:1], qs[:1], ws[:1]
+        gc, gq, gw = cs, qs, ws
+        by = [base_keep]
+        sh, ok = rectangular(e)
+        if sh != ((1, na, 3), (1, na), (1,)) or not ok:
+            ctx.violation("construct:molecule-default:not-one-rectangular-conformer", case=case, got=[list(t) for t in sh], n_atoms=na)
+        else:
+            # its initial values are not fixed by the property; they are assigned here in one of the usual ways
+            how = rng.choice(["ensemble-setters", "ensemble-setters-one-geometry", "through-the-conformer"])
+            if how == "ensemble-setters":
+                e.coords, e.atomic_charges, e.weights = cs, qs, ws
+                handed(cs, qs, ws)
+            elif how == "ensemble-setters-one-geometry":
+                gc, gq = np.array(cs[0]), np.array(qs[0])
+                e.coords, e.atomic_charges, e.weights = gc, gq, float(ws[0])
+                handed(gc, gq)
+            else:
+                c = e[0]
+                c.coords = cs[0]
+                c.atomic_charges[:] = qs[0]
+                e.weights[0] = ws[0]
     elif route == "list":
         mols = []
         for i in range(nc):
@@ -97,17 +235,17 @@ def construct(rng, ctx):
         by = [(m, np.array(m.coords), np.array(m.atomic_charges), None) for m in mols[:2]]
     elif route == "ensemble":
         e0 = ml.ConformerEnsemble(base, n_conformers=nc, coords=cs, atomic_charges=qs, weights=ws)
+        handed(cs, qs, ws)
         e = ml.ConformerEnsemble(e0)
         by = [(e0, np.array(cs), np.array(qs), np.array(ws))]
+    if broadcast:
+        ctx.count("construct.broadcast")
+    if nc:
+        model = Model(np.broadcast_to(np.asarray(gc, dtype=float), (nc, na, 3)), np.broadcast_to(np.asarray(gq, dtype=float), (nc, na)),
+                      np.ones(nc) if route == "list" else np.broadcast_to(np.asarray(gw, dtype=float), (nc,)))
     else:
-        if rng.random() < 0.3:
-            nc = 0
-            cs, qs, ws = cs[:0], qs[:0], ws[:0]
-        e = ml.ConformerEnsemble(base.atoms, n_conformers=nc, name=base.name, copy_atoms=True,
-                                 coords=cs if nc else None, atomic_charges=qs if nc else None, weights=ws if nc else None)
-        for b in base.bonds:
-            e.connect(base.atoms.index(b.a1), base.atoms.index(b.a2), btype=b.btype)
-    return e, Model(cs.reshape(nc, na, 3), qs.reshape(nc, na), ws.reshape(nc)), base, route, by
+        model = Model(cs.reshape(0, na, 3), qs.reshape(0, na), ws.reshape(0))
+    return e, model, base, route, by, raw
 
 
 def close(a, b, exact):
@@ -129,10 +267,14 @@ class Driver:
         self.grown_at = None
         self.held = []          # (row, conformer object) taken earlier and kept across later operations
         self.bystanders = []    # what the ensemble was constructed from; edits on either side stay on that side
-        self.sources = []       # (geometry that was appended / extended with, copy of its coordinates): must stay untouched
+        self.sources = []       # (geometry / ensemble that was appended / extended with, copies of its coordinates, charges, weights
+                                # (None where it has none)): must stay untouched, and edits of it stay with it
+        self.raw = []           # (array handed to a constructor / setter, copy): stays the caller's
 
     def v(self, key, **detail):
         self.ok = False
+        if f"{ID}:{key}" in KNOWN_ON_UNCHANGED_TREE or key in KNOWN_ON_UNCHANGED_TREE:
+            return self.ctx.count("known-on-unchanged-tree")
         self.ctx.violation(key, case=self.case, history=self.kinds[-10:], shape=[self.m.nc, self.m.na], **detail)
 
     def inspect(self, after, exact=True):
@@ -151,10 +293,19 @@ class Driver:
             if not close(got, wnt, exact):
                 return self.v(f"{after}:{name}-differ-from-expected")
         # the geometries the ensemble was grown with are independent of it
-        for g, c0 in self.sources:
+        if m.attrib != dict(e.attrib):
+            return self.v(f"{after}:attrib-differ-from-expected", got=sorted(map(str, e.attrib)), want=sorted(map(str, m.attrib)))
+        for g, c0, q0, w0 in self.sources:
             ctx.count("source.checked")
-            if not close(g.coords, c0, True):
-                return self.v(f"{after}:geometry-that-was-appended-changes-with-the-ensemble")
+            if w0 is not None:
+                ctx.count("source.ensemble-checked")
+            if not close(g.coords, c0, True) or (q0 is not None and not close(g.atomic_charges, q0, True)) \
+                    or (w0 is not None and not close(g.weights, w0, True)):
+                return self.v(f"{after}:geometry-that-was-appended-changes-with-the-ensemble", kind=type(g).__name__)
+        for a, a0 in self.raw:
+            ctx.count("raw.checked")
+            if not close(a, a0, True):
+                return self.v(f"{after}:array-handed-to-constructor-or-setter-changes-with-the-ensemble", ndim=a.ndim)
         for o, c0, q0, w0 in self.bystanders:
             ctx.count("bystander.checked")
             if not close(o.coords, c0, True) or not close(o.atomic_charges, q0, True) or (w0 is not None and not close(o.weights, w0, True)):
@@ -180,6 +331,9 @@ class Driver:
                     return self.v(f"{after}:conformer-view-atoms-or-bonds-differ", conformer=i)
                 if c.name != e.name or c.charge != e.charge or c.mult != e.mult:
                     return self.v(f"{after}:conformer-view-name-charge-mult-differ", conformer=i)
+                ctx.count("view.attrib-checked")
+                if dict(c.attrib) != m.attrib:
+                    return self.v(f"{after}:conformer-view-attrib-differ-from-the-ensembles", conformer=i)
             except Exception as ex:  # noqa
                 return self.v(f"{after}:conformer-view-raises:{type(ex).__name__}", conformer=i, err=repr(ex)[:200])
 
@@ -238,7 +392,38 @@ class Driver:
                 ctx.note(f"edit of constructor source raised {type(ex).__name__}")
             self.bystanders[k] = (o, c0, q0, w0)
             return self.inspect(self.kinds[-1])
+        if self.sources and rng.random() < 0.07:
+            # an in-place edit of a geometry / ensemble that the ensemble was grown with must not reach the ensemble
+            k = rng.randrange(len(self.sources))
+            g, c0, q0, w0 = self.sources[k]
+            how = rng.choice(["translate", "coords-inplace", "charges-inplace", "weights-inplace"])
+            self.kinds.append(f"edit-growth-source:{how}")
+            ctx.count("op.edit-growth-source")
+            try:
+                if how == "translate":
+                    g.translate([-1.5, 0.25, 2.0])
+                    c0 = np.array(g.coords)
+                elif how == "coords-inplace":
+                    g.coords[...] = g.coords * 0.5 - 1.0
+                    c0 = np.array(g.coords)
+                elif how == "charges-inplace" and q0 is not None:
+                    g.atomic_charges[...] = g.atomic_charges + 0.125
+                    q0 = np.array(g.atomic_charges)
+                elif w0 is not None:
+                    g.weights[...] = g.weights * 0.5
+                    w0 = np.array(g.weights)
+            except Exception as ex:  # noqa
+                ctx.note(f"edit of growth source raised {type(ex).__name__}")
+                c0 = np.array(g.coords)
+            self.sources[k] = (g, c0, q0, w0)
+            return self.inspect(self.kinds[-1])
+        if m.nc >= 1 and rng.random() < 0.07:
+            return self.assign(rng)
+        if m.nc >= 1 and rng.random() < (0.15 if m.nc == 1 else 0.04):
+            return self.transform_refused(rng)
         r = rng.random()
+        if m.nc == 0 and rng.random() < 0.6:
+            r = rng.uniform(0.08, 0.26)     # an ensemble without conformers: mostly grow it (append / extend)
         exact = True
         if m.nc >= 1 and rng.random() < 0.06:
             # the ensemble grows by its own content: one of its conformers, a list / generator of them, or itself
@@ -277,8 +462,8 @@ class Driver:
                 self.kinds.append(f"append:{gk}")
                 ctx.count("op.append")
                 e.append(g)
-                self.sources.append((g, np.array(c, copy=True)))
-                del self.sources[:-3]
+                self.sources.append((g, np.array(c, copy=True), np.array(q, copy=True) if hasattr(g, "atomic_charges") else None, None))
+                del self.sources[:-4]
                 m.coords = np.concatenate([m.coords, c[None]], axis=0)
                 m.charges = np.concatenate([m.charges, q[None]], axis=0)
                 m.weights = np.concatenate([m.weights, [1.0]])
@@ -291,8 +476,9 @@ class Driver:
                     gs = [self.geometry_like(rng, rng.choice(["Molecule", "Structure"])) for _ in range(k)]
                     self.kinds.append(f"extend:list{k}")
                     e.extend([g for g, _, _ in gs])
-                    self.sources.append((gs[0][0], np.array(gs[0][1], copy=True)))
-                    del self.sources[:-3]
+                    for g, c, q in gs:
+                        self.sources.append((g, np.array(c, copy=True), np.array(q, copy=True) if hasattr(g, "atomic_charges") else None, None))
+                    del self.sources[:-4]
                     m.coords = np.concatenate([m.coords] + [c[None] for _, c, _ in gs], axis=0)
                     m.charges = np.concatenate([m.charges] + [q[None] for _, _, q in gs], axis=0)
                     m.weights = np.concatenate([m.weights, np.ones(k)])
@@ -303,7 +489,12 @@ class Driver:
                     ow = np.array([rng.choice([1.0, 0.5, 2.0]) for _ in range(k)])
                     other.coords, other.atomic_charges, other.weights = oc, oq, ow
                     self.kinds.append(f"extend:ensemble{k}")
+                    if m.nc == 0:
+                        ctx.count("op.extend.ensemble-into-empty")
                     e.extend(other)
+                    # the ensemble that was extended WITH stays what it is (object + its three blocks)
+                    self.sources.append((other, np.array(oc), np.array(oq), np.array(ow)))
+                    del self.sources[:-4]
                     m.coords = np.concatenate([m.coords, oc], axis=0)
                     m.charges = np.concatenate([m.charges, oq], axis=0)
                     m.weights = np.concatenate([m.weights, ow])
@@ -366,10 +557,18 @@ class Driver:
             elif r < 0.48 and m.nc:
                 kind = "rotate"
                 from vmon.gen import random_rotation
-                R = random_rotation(rng)
-                self.kinds.append("rotate")
-                e.rotate(R)
-                m.coords = m.coords @ R
+                if rng.random() < 0.5:
+                    R = random_rotation(rng)
+                    self.kinds.append("rotate")
+                    e.rotate(R)
+                    m.coords = m.coords @ R
+                else:
+                    # one matrix per conformer (what align_to_ref_coords hands over)
+                    R = np.stack([random_rotation(rng) for _ in range(m.nc)])
+                    self.kinds.append("rotate:stack")
+                    ctx.count("op.rotate.stack")
+                    e.rotate(R)
+                    m.coords = np.matmul(m.coords, R)
                 exact = False
             elif r < 0.52 and m.nc:
                 kind = "center_at_atom"
@@ -398,9 +597,29 @@ class Driver:
                     # (a conformer taken with a negative index means "counted from the end" and is not held)
                     self.held.append((i, c))
                     del self.held[:-4]
-                how = rng.choice(["coords[j]=v", "coords=M", "charges[j]=q", "charges=array"])
+                how = rng.choice(["coords[j]=v", "coords=M", "charges[j]=q", "charges=array", "coords+=v", "translate", "scale", "attrib[k]=v"])
                 self.kinds.append(f"write:{how}")
-                if how == "coords[j]=v":
+                if how in ("coords+=v", "translate", "scale"):
+                    # geometry-level mutators called on the view
+                    ctx.count("op.write-through.mutator")
+                    exact = False
+                    if how == "scale":
+                        f = rng.choice([2.0, 0.5, 1.5])
+                        c.scale(f)
+                        m.coords[i] = m.coords[i] * f
+                    else:
+                        v = np.array([rng.uniform(-3, 3) for _ in range(3)])
+                        if how == "translate":
+                            c.translate(v)
+                        else:
+                            c.coords += v
+                        m.coords[i] = m.coords[i] + v
+                elif how == "attrib[k]=v":
+                    ctx.count("op.write-through.attrib")
+                    k, val = rng.choice(["k", "note", "n_checked"]), rng.choice([1, 7, "x", "crest", 2.5, True])
+                    c.attrib[k] = val
+                    m.attrib[k] = val
+                elif how == "coords[j]=v":
                     v = np.array([rng.uniform(-9, 9) for _ in range(3)])
                     c.coords[j] = v
                     m.coords[i, j] = v
@@ -422,7 +641,7 @@ class Driver:
             elif r < 0.84:
                 kind = "iterate"
                 self.iterate(rng)
-                return
+                return self.inspect("iterate") if self.ok else None
             elif r < 0.90 and m.nc:
                 kind = "slice"
                 ctx.count("op.slice")
@@ -443,17 +662,109 @@ class Driver:
             elif r < 0.96 and m.nc:
                 kind = "dump"
                 self.dump(rng)
-                return
+                return self.inspect("dump") if self.ok else None
             elif m.nc:
                 kind = "serialise"
                 self.serialise(rng)
-                return
+                return self.inspect("serialise") if self.ok else None
             else:
                 return
         except Exception as ex:  # noqa
             self.kinds.append("!raised")
             return self.v(f"{kind}:raises:{type(ex).__name__}", err=repr(ex)[:200])
         self.inspect(self.kinds[-1].split(":")[0] if self.kinds else "start", exact)
+
+    def unfit_leaves_rectangular(self, label, raised):
+        """after an assignment / transformation whose argument does not fit (or that was refused): the three arrays still
+        describe the model's conformers and atoms.  -> False when a violation was reported"""
+        import numpy as np
+
+        e, m = self.e, self.m
+        sh = (np.shape(e.coords), np.shape(e.atomic_charges), np.shape(e.weights))
+        want = ((m.nc, m.na, 3), (m.nc, m.na), (m.nc,))
+        if sh != want or e.n_conformers != m.nc or e.n_atoms != m.na:
+            which = next((n for n, a, b in zip(("coords", "atomic_charges", "weights"), sh, want) if a != b), "n_conformers")
+            self.v(f"{label}:{'refused' if raised else 'accepted'}-and-{which}-no-longer-fit-the-other-arrays",
+                   got=[list(t) for t in sh], want=[list(t) for t in want])
+            return False
+        return True
+
+    def assign(self, rng):
+        """ensemble-level assignment e.coords / e.atomic_charges / e.weights = value: full block, broadcastable value, wrong length"""
+        import numpy as np
+
+        e, m, ctx = self.e, self.m, self.ctx
+        nc, na = m.nc, m.na
+        what = rng.choice(["coords", "atomic_charges", "weights"])
+        form = rng.choice(["full", "broadcast", "broadcast", "wrong-length"])
+        full = {"coords": (nc, na, 3), "atomic_charges": (nc, na), "weights": (nc,)}[what]
+        lo, hi = {"coords": (-6, 6), "atomic_charges": (-1, 1), "weights": (0.1, 1.0)}[what]
+
+        def rand(shape):
+            return np.array([rng.uniform(lo, hi) for _ in range(int(np.prod(shape)))]).reshape(shape)
+
+        if form == "full":
+            X = rand(full)
+        elif form == "broadcast":
+            if what == "coords":
+                X = rand((na, 3))                                   # one geometry for every conformer
+            elif what == "atomic_charges":
+                X = rng.choice([rand((na,)), float(rng.uniform(lo, hi))])          # one charge vector / one number
+            else:
+                w = rng.choice([1.0, 0.5, float(rng.uniform(lo, hi))])
+                X = rng.choice([w, [w], np.array(w)])               # one weight for all
+        else:
+            # another number of conformers (k >= 2, k != nc) or of atoms: cannot be meant for this ensemble
+            X = rand({"coords": rng.choice([(nc + 1, na, 3), (nc, na + 1, 3), (nc + 2, na, 3)]),
+                      "atomic_charges": rng.choice([(nc + 1, na), (nc, na + 1)]),
+                      "weights": rng.choice([(nc + 1,), (nc + 2,)])}[what])
+        self.kinds.append(f"assign:{what}:{form}")
+        raised = False
+        try:
+            setattr(e, what, X)
+        except Exception:  # noqa
+            raised = True
+        field = {"coords": "coords", "atomic_charges": "charges", "weights": "weights"}[what]
+        if form == "wrong-length" or raised:
+            ctx.count("op.assign.wrong-length" if form == "wrong-length" else f"op.assign.{form}-refused")
+            if not self.unfit_leaves_rectangular(f"assign:{what}:{form}", raised):
+                return
+            if not raised:
+                # accepted in some way that keeps the arrays rectangular: the model follows the values of that block
+                setattr(m, field, np.array(getattr(e, what), dtype=float))
+        else:
+            ctx.count(f"op.assign.{form}")
+            setattr(m, field, np.array(np.broadcast_to(np.asarray(X, dtype=float), full)))
+            if isinstance(X, np.ndarray) and X.ndim:
+                self.raw.append((X, np.array(X)))
+                del self.raw[:-6]
+        self.inspect("assign")
+
+    def transform_refused(self, rng):
+        """translate / rotate with k per-conformer vectors / matrices, k not in (1, n_conformers)"""
+        import numpy as np
+        from vmon.gen import random_rotation
+
+        e, m, ctx = self.e, self.m, self.ctx
+        k = rng.choice([k for k in (2, 3, m.nc + 1, m.nc + 2) if k != m.nc])
+        what = rng.choice(["translate", "rotate"])
+        self.kinds.append(f"bad-{what}:{'one-conformer' if m.nc == 1 else 'several-conformers'}")
+        ctx.count("op.transform-refused")
+        if m.nc == 1:
+            ctx.count("op.transform-refused.single-conformer")
+        raised = False
+        try:
+            if what == "translate":
+                e.translate(np.array([[rng.uniform(-3, 3) for _ in range(3)] for _ in range(k)]))
+            else:
+                e.rotate(np.stack([random_rotation(rng) for _ in range(k)]))
+        except Exception:  # noqa
+            raised = True
+        if not self.unfit_leaves_rectangular(f"bad-{what}", raised):
+            return
+        if not raised:
+            m.coords = np.array(e.coords, dtype=float)
+        self.inspect(f"bad-{what}")
 
     # ---- iteration patterns: each loop visits conformers 0..nc-1 exactly once, in order
     def row_of(self, c):
@@ -483,7 +794,9 @@ class Driver:
     def iterate(self, rng):
         e, m, ctx = self.e, self.m, self.ctx
         nc = m.nc
-        pat = rng.choice(["list", "nested", "zip", "abandoned", "triple", "enumerate-twice"])
+        pat = rng.choice(["list", "nested", "zip", "abandoned", "triple", "enumerate-twice", "growing"])
+        if pat == "growing" and nc == 0:
+            pat = "list"
         self.kinds.append(f"iterate:{pat}")
         ctx.count(f"op.iterate.{pat}")
         want = list(range(nc))
@@ -519,6 +832,33 @@ class Driver:
                 rest = [self.row_of(c) for c in it]
                 if not self.seq_ok(rest, want[min(k, nc):]):
                     return self.v("iterate:abandoned-iterator-disturbed-by-fresh-one", got=rest[:12], want=want[min(k, nc):][:12])
+            elif pat == "growing":
+                # the ensemble grows while a loop over it is running (in the loop body == between two next() calls)
+                import numpy as np
+                at = rng.randrange(nc)
+                how = rng.choice(["append", "extend"])
+                seen = []
+                for c in e:
+                    seen.append(c)
+                    if len(seen) - 1 == at:
+                        gs = [self.geometry_like(rng, "Molecule") for _ in range(1 if how == "append" else 2)]
+                        if how == "append":
+                            e.append(gs[0][0])
+                        else:
+                            e.extend([g for g, _, _ in gs])
+                        m.coords = np.concatenate([m.coords] + [c_[None] for _, c_, _ in gs], axis=0)
+                        m.charges = np.concatenate([m.charges] + [q_[None] for _, _, q_ in gs], axis=0)
+                        m.weights = np.concatenate([m.weights, np.ones(len(gs))])
+                        self.grown_at = len(self.kinds)
+                    if len(seen) > nc + 4:
+                        break
+                got = [self.row_of(c) for c in seen]
+                # every conformer that existed when the loop started, possibly followed by the new ones: 0..k-1, once, in order
+                if not (nc <= len(got) <= m.nc) or not self.seq_ok(got, list(range(len(got)))):
+                    return self.v("iterate:growing:not-each-conformer-once-in-order", got=got[:12], at_start=nc, at_end=m.nc, grown_at=at)
+                for row, c in enumerate(seen[:2]):
+                    self.held.append((row, c))
+                del self.held[:-4]
             elif pat == "triple" and nc <= 4:
                 n = sum(1 for a in e for b in e for c in e)
                 if n != nc ** 3:
@@ -557,6 +897,35 @@ class Driver:
             return self.v(f"dump:ensemble-cannot-be-written-or-read:{type(ex).__name__}", err=repr(ex)[:200])
         if whole is not None and (whole.n_conformers != m.nc or not np.allclose(whole.coords, m.coords, atol=1e-6)):
             return self.v("dump:ensemble-text-differs", got=whole.n_conformers, want=m.nc)
+        if whole is not None:
+            ctx.count("dump.ensemble-mol2-charges")
+            bad = [i for i in range(m.nc) if not np.allclose(whole.atomic_charges[i], m.charges[i], atol=6e-4)]
+            if bad:
+                return self.v("dump:ensemble-mol2-text-frame-shows-another-rows-charges", frames=bad[:6])
+        if m.na:
+            # the multi-xyz text: frame i is row i
+            try:
+                tx = e.dumps_xyz()
+                wx = ml.ConformerEnsemble.loads_xyz(tx)
+            except Exception as ex:  # noqa
+                return self.v(f"dump:ensemble-xyz-cannot-be-written-or-read:{type(ex).__name__}", err=repr(ex)[:200])
+            ctx.count("dump.ensemble-xyz")
+            if wx.n_conformers != m.nc or wx.n_atoms != m.na:
+                return self.v("dump:ensemble-xyz-text-has-another-number-of-frames-or-atoms", got=[wx.n_conformers, wx.n_atoms], want=[m.nc, m.na])
+            bad = [i for i in range(m.nc) if not np.allclose(wx.coords[i], m.coords[i], atol=1e-6)]
+            if bad:
+                return self.v("dump:ensemble-xyz-text-frame-shows-another-row", frames=bad[:6])
+            # stream forms write what the string forms return
+            from io import StringIO
+            try:
+                s2, sx = StringIO(), StringIO()
+                e.dump_mol2(s2)
+                e.dump_xyz(sx)
+                same = s2.getvalue() == e.dumps_mol2() and sx.getvalue() == tx
+            except Exception as ex:  # noqa
+                return self.v(f"dump:ensemble-stream-form-raises:{type(ex).__name__}", err=repr(ex)[:200])
+            if not same:
+                return self.v("dump:ensemble-stream-form-differs-from-string-form")
 
     def serialise(self, rng):
         import numpy as np
@@ -596,6 +965,65 @@ class Driver:
             if not np.allclose(mol.coords, m.coords[i], rtol=1.2e-7, atol=1e-30) or not np.allclose(mol.atomic_charges, m.charges[i], rtol=1.2e-7, atol=1e-30):
                 return self.v("serialise:conformer-read-back-shows-another-row", conformer=i)
 
+        # pickle / deepcopy (what joblib, multiprocessing and copy do): conformers -- fresh, taken earlier, appended -- and the ensemble
+        import copy
+        import pickle
+
+        forms = (("pickle", lambda x: pickle.loads(pickle.dumps(x))), ("deepcopy", copy.deepcopy))
+        cands = [(i, e[i]) for i in sorted({0, m.nc - 1, rng.randrange(m.nc)})] + list(self.held[:2])
+        detached = []
+        for i, c in cands:
+            for form, fn in forms:
+                try:
+                    c2 = fn(c)
+                    ok = c2.n_atoms == m.na and close(c2.coords, m.coords[i], True) and close(c2.atomic_charges, m.charges[i], True)
+                except Exception as ex:  # noqa
+                    return self.v(f"serialise:{form}:conformer-raises:{type(ex).__name__}", conformer=i, appended=self.grown_at is not None,
+                                  err=repr(ex)[:200])
+                ctx.count("op.serialise.conformer-pickled" if form == "pickle" else "op.serialise.conformer-deepcopied")
+                if not ok:
+                    return self.v(f"serialise:{form}:conformer-copy-shows-another-row", conformer=i)
+                detached.append(c2)
+        copies = {}
+        for form, fn in forms + (("constructor", ml.ConformerEnsemble),):
+            try:
+                e2 = fn(e)
+                same = (np.shape(e2.coords), np.shape(e2.atomic_charges), np.shape(e2.weights)) == ((m.nc, m.na, 3), (m.nc, m.na), (m.nc,)) \
+                    and close(e2.coords, m.coords, True) and close(e2.atomic_charges, m.charges, True) and close(e2.weights, m.weights, True) \
+                    and e2.n_atoms == m.na and e2.n_conformers == m.nc and e2.name == e.name
+            except Exception as ex:  # noqa
+                return self.v(f"serialise:{form}:ensemble-raises:{type(ex).__name__}", appended=self.grown_at is not None, err=repr(ex)[:200])
+            ctx.count("op.serialise.ensemble-pickled" if form == "pickle" else f"op.serialise.ensemble-{form}")
+            if not same:
+                return self.v(f"serialise:{form}:ensemble-copy-differs")
+            copies[form] = e2
+        # a copy of a conformer is detached: a write through it stays with the copy (the inspection that follows sees the ensemble)
+        for c2 in detached[:2]:
+            try:
+                c2.coords[0] = [9.0, -9.0, 9.0]
+                c2.atomic_charges[0] = 5.0
+            except Exception as ex:  # noqa
+                return self.v(f"serialise:conformer-copy-does-not-take-writes:{type(ex).__name__}", err=repr(ex)[:200])
+        copies["library"] = back
+        if rng.random() < 0.6:
+            # the history continues on the copy: it is a normal ensemble (takes writes through conformers, collective
+            # transformations, growth ...) and the ensemble it was made from becomes a bystander
+            form = rng.choice(["library", "library", "pickle", "deepcopy", "constructor"])
+            new = copies[form]
+            if (np.shape(new.coords), np.shape(new.atomic_charges), np.shape(new.weights)) != ((m.nc, m.na, 3), (m.nc, m.na), (m.nc,)):
+                return self.v(f"serialise:{form}:ensemble-copy-differs")
+            ctx.count("op.continue-on-copy")
+            ctx.count(f"op.continue-on-copy.{form}")
+            self.kinds.append(f"continue-on:{form}")
+            self.bystanders.append((e, np.array(e.coords), np.array(e.atomic_charges), np.array(e.weights)))
+            del self.bystanders[:-4]
+            m.coords = np.array(new.coords, dtype=float)       # (the library stores float32)
+            m.charges = np.array(new.atomic_charges, dtype=float)
+            m.weights = np.array(new.weights, dtype=float)
+            m.attrib = copy.deepcopy(dict(new.attrib)) if dict(new.attrib) == m.attrib else m.attrib
+            self.e = new
+            self.held = []
+
 
 def run_chunk(spec, ctx):
     for j in range(spec["n"]):
@@ -604,12 +1032,18 @@ def run_chunk(spec, ctx):
             continue
         rng = ctx.rng(*case)
         try:
-            ens, model, base, route, by = construct(rng, ctx)
+            ens, model, base, route, by, raw = construct(rng, ctx, case)
         except Exception as ex:  # noqa
             ctx.violation(f"construct:raises:{type(ex).__name__}", case=case, err=repr(ex)[:200])
             continue
         d = Driver(ctx, case, ens, model, base)
         d.bystanders = by
+        d.raw = raw
+        try:
+            import copy as _copy
+            model.attrib = _copy.deepcopy(dict(ens.attrib))
+        except Exception:  # noqa
+            pass
         d.kinds.append(f"construct:{route}")
         d.inspect("construct")
         for _ in range(rng.randrange(4, 26)):
